@@ -127,6 +127,13 @@ var templates = []template{
 	{"replace_select", "replace", "replace into%1 (id) select id from%2", 2},
 	{"update_set_subquery", "update", "update%1 set k = (select max(k) from%2 )", 2},
 	{"update_join", "update", "update%1 join%2 on 1 = 1 set k = 1", 2},
+	// a second table named only BEHIND the VALUES keyword / in the ON DUPLICATE list / in the
+	// SET list of an insert (added after seeded change c06-3 was missed)
+	{"insert_values_subquery", "insert", "insert into%1 (id, k) values (1, (select max(k) from%2 where id = 1))", 2},
+	{"insert_ondup_subquery", "insert", "insert into%1 (id, k) values (1, 1) on duplicate key update k = (select max(k) from%2 )", 2},
+	{"insert_set_subquery", "insert", "insert into%1 set id = 1, k = (select max(k) from%2 )", 2},
+	{"replace_values_subquery", "replace", "replace into%1 (id, k) values (1, (select max(k) from%2 where id = 1))", 2},
+	{"delete_exists_subquery", "delete", "delete from%1 where exists (select 1 from%2 where id = 1)", 2},
 	{"update_comma", "update", "update%1,%2 set k = 1", 2},
 
 	{"select_three_way", "select", "select * from%1,%2 where id in (select id from%3 )", 3},
